@@ -215,7 +215,9 @@ class SubclassJSONSerializer:
 
         try:
             module = importlib.import_module(module_name)
-        except ImportError as exc:
+        except (ImportError, RecursionError) as exc:
+            # import_module imports the parent packages of a dotted name recursively: a name with hundreds of segments
+            # cannot be imported either
             raise UnknownModuleError(module_name) from exc
 
         try:
